@@ -461,11 +461,22 @@ def add_pending(ctx, reqs, pending, req, case, impl, extra=None):
     pending.append((case, impl))
 
 
+def _guard(ctx, descr, fn, *a):
+    """A case whose check cannot even be carried out (the library raised where the oracle reads plain attributes) is an
+    oracle failure of that case, not a harness crash."""
+    try:
+        fn(*a)
+    except Exception as e:  # noqa: BLE001
+        import traceback
+        ctx.fail(descr, 'check could not be carried out: ' + type(e).__name__ + ': ' + str(e)[:200] + ' @ '
+                 + traceback.format_exc().strip().split('\n')[-3].strip()[:160], site='case-crash')
+
+
 def run_vol(ctx, reqs, pending):
     n_cases = ctx.n(150, 2500)
     for idx in range(n_cases):
         descr, g, arr, mk = build_vol_case(ctx, idx)
-        check_vol_case(ctx, descr, g, arr, mk, reqs, pending)
+        _guard(ctx, descr, check_vol_case, ctx, descr, g, arr, mk, reqs, pending)
 
 
 def check_vol_case(ctx, descr, g, arr, mk, reqs, pending):
@@ -622,7 +633,7 @@ def build_src_case(ctx, idx):
 def run_src(ctx, reqs, pending):
     for idx in range(ctx.n(100, 1500)):
         descr, geo, arr, mk, src = build_src_case(ctx, idx)
-        check_src_case(ctx, descr, geo, arr, mk, src, reqs, pending)
+        _guard(ctx, descr, check_src_case, ctx, descr, geo, arr, mk, src, reqs, pending)
 
 
 def check_src_case(ctx, descr, geo, arr, mk, src, reqs, pending):
@@ -751,7 +762,7 @@ def build_img_case(ctx, idx):
 def run_img(ctx, reqs, pending):
     for idx in range(ctx.n(80, 1200)):
         descr, geo, shape, mk = build_img_case(ctx, idx)
-        check_img_case(ctx, descr, geo, shape, mk, reqs, pending)
+        _guard(ctx, descr, check_img_case, ctx, descr, geo, shape, mk, reqs, pending)
 
 
 def check_img_case(ctx, descr, geo, shape, mk, reqs, pending):
@@ -860,7 +871,7 @@ def build_tiled_case(ctx, idx):
 def run_tiled(ctx, reqs, pending):
     for idx in range(ctx.n(80, 1200)):
         descr, geo, mask, mk = build_tiled_case(ctx, idx)
-        check_tiled_case(ctx, descr, geo, mask, mk, reqs, pending)
+        _guard(ctx, descr, check_tiled_case, ctx, descr, geo, mask, mk, reqs, pending)
 
 
 def check_tiled_case(ctx, descr, geo, mask, mk, reqs, pending):
@@ -969,7 +980,7 @@ def build_pyr_case(ctx, idx):
 def run_pyr(ctx, reqs, pending):
     for idx in range(ctx.n(30, 400)):
         descr, ps, mk = build_pyr_case(ctx, idx)
-        check_pyr_case(ctx, descr, ps, mk, reqs, pending)
+        _guard(ctx, descr, check_pyr_case, ctx, descr, ps, mk, reqs, pending)
 
 
 def check_pyr_case(ctx, descr, ps, mk, reqs, pending):
@@ -1050,15 +1061,26 @@ def run_slice_requests_exhaustive(ctx, reqs, pending):
     from gen.sources import ct_series, enhanced_multiframe, seg_description
     n = 4
     ds = enhanced_multiframe(n, 2, 3, slice_spacing=1.5, order=[2, 0, 3, 1], origin=(1.0, 2.0, 3.0))
-    im = hd.Image.from_dataset(ds, copy=False)
     kw = dict(apply_modality_transform=False)
-    full = im.get_volume(**kw)
     src = ct_series(n, 2, 3, slice_spacing=0.5)
     arr = np.zeros((n, 2, 3), np.uint8)
     for k in range(n):
         arr[k, k % 2, k % 3] = 1
-    seg = hd.seg.Segmentation(src, arr, 'BINARY', [seg_description(1)], **_seg_kw())
-    sfull = seg.get_volume(combine_segments=True)
+    objs = []
+    st, im = _fetch(lambda: hd.Image.from_dataset(ds, copy=False))
+    st2, full = _fetch(lambda: im.get_volume(**kw)) if st == 'ok' else ('err', im)
+    if st2 == 'ok':
+        objs.append(('image', im.get_volume, full, kw))
+    else:
+        ctx.fail({'stream': 'slicegrid', 'object': 'image'}, f'default get_volume of a regular 4-slice image failed: {full}',
+                 site='image.get_volume/slice-grid')
+    st, seg = _fetch(lambda: hd.seg.Segmentation(src, arr, 'BINARY', [seg_description(1)], **_seg_kw()))
+    st2, sfull = _fetch(lambda: seg.get_volume(combine_segments=True)) if st == 'ok' else ('err', seg)
+    if st2 == 'ok':
+        objs.append(('seg', seg.get_volume, sfull, dict(combine_segments=True)))
+    else:
+        ctx.fail({'stream': 'slicegrid', 'object': 'seg'}, f'default get_volume of a regular 4-slice segmentation failed: {sfull}',
+                 site='seg.get_volume/slice-grid')
     vals = [None] + list(range(-n - 2, n + 3))
     for s in vals:
         for e in vals:
@@ -1068,7 +1090,7 @@ def run_slice_requests_exhaustive(ctx, reqs, pending):
                     req['slice_start'] = s
                 if e is not None:
                     req['slice_end'] = e
-                for nm, gv, fv, k2 in (('image', im.get_volume, full, kw), ('seg', seg.get_volume, sfull, dict(combine_segments=True))):
+                for nm, gv, fv, k2 in objs:
                     st, sub, exp = check_subvolume(ctx, {'stream': 'slicegrid', 'object': nm}, gv, fv, req, True, kw=k2,
                                                    site=f'{nm}.get_volume/slice-grid')
                     ctx.case(stream='slicegrid', request_valid=exp[0] is not None, outcome='ok' if st == 'ok' else 'refused',
